@@ -682,6 +682,18 @@ fn parse_comment_attrs(attrs: &[Attribute]) -> Vec<String> {
             }
             _ => None,
         })
+        // A block doc comment (or `#[doc = "a\nb"]`) arrives as one string with line breaks in it.
+        // Every language writes one comment line per entry, so hand them one entry per line.
+        .flat_map(|doc| {
+            if doc.is_empty() {
+                // a blank doc line (paragraph separator) stays one empty entry
+                return vec![doc];
+            }
+            doc.lines()
+                .flat_map(|line| line.split('\r'))
+                .map(|line| line.trim().to_string())
+                .collect::<Vec<_>>()
+        })
         .collect()
 }
 
